@@ -722,3 +722,34 @@ Theorem C10_pillar_revoke_is_the_source : forall (name_ok : bytes -> bool) (num 
     end.
 
 Proof. exact pillar_revoke_is_source. Qed.
+Theorem C10_cancel_liquidity_stake_is_the_source : forall (num : bytes -> Z) (e : env) (a : cacct qstore) (s : send) ,
+    match cancel_liquidity_validate s with
+    | VErr c =>
+        cancel_liquidity_receive e a s = MErr c /\
+        (c <> 0 -> forall rt amt u g f exp now sv own zts,
+           CancelLiquidityStake_receive rt amt c u g f exp now sv own zts = GoSem.Ok (nil, c, rt, amt, None))
+    | VPanic => cancel_liquidity_receive e a s = MPanic
+    | VOk id =>
+        match tget (lq_entries (a_store a)) (s_from s ++ id) with
+        | None =>
+            cancel_liquidity_receive e a s = MErr E_nonexistent /\
+            forall rt amt f exp now sv own zts,
+              CancelLiquidityStake_receive rt amt 0 0 Err_constants_ErrDataNonExistent f exp now sv own zts =
+              GoSem.Ok (nil, Err_constants_ErrDataNonExistent, rt, amt, None)
+        | Some ent =>
+            let src := CancelLiquidityStake_receive (ls_revoke ent) (ls_amount ent) 0 0 0 0 (ls_exp ent) (e_now e) 0
+                         (num (s_from s)) (num (ls_zts ent)) in
+            if e_now e <? ls_exp ent then
+              cancel_liquidity_receive e a s = MErr E_revoke_not_due /\
+              src = GoSem.Ok (nil, Err_constants_RevokeNotDue, ls_revoke ent, ls_amount ent, None)
+            else
+              exists a',
+                cancel_liquidity_receive e a s =
+                  MOk a' [{| d_to := s_from s; d_amount := ls_amount ent; d_zts := ls_zts ent; d_data := [] |}] /\
+                src = GoSem.Ok ([(num (s_from s), ls_amount ent, num (ls_zts ent))], 0, e_now e, 0, Some 1) /\
+                (exists ent', tget (lq_entries (a_store a')) (s_from s ++ id) = Some ent' /\
+                   ls_amount ent' = 0 /\ ls_revoke ent' = e_now e /\ ls_exp ent' = ls_exp ent /\ ls_zts ent' = ls_zts ent)
+        end
+    end.
+
+Proof. exact cancel_liquidity_is_source. Qed.
